@@ -471,6 +471,48 @@ func C16(run *hx.Run) {
 		wg.Wait()
 		run.Count("concurrent_parses", 8*len(sample))
 	}
+	// concurrency without warm-up: statements whose keyword spellings no parse in this process has seen yet
+	{
+		recase := func(s string, r *rand.Rand) string {
+			b := []byte(s)
+			for i, c := range b {
+				if c >= 'a' && c <= 'z' && r.Intn(2) == 0 {
+					b[i] = c - 32
+				} else if c >= 'A' && c <= 'Z' && r.Intn(2) == 0 {
+					b[i] = c + 32
+				}
+			}
+			return string(b)
+		}
+		base := []string{"create table t(a integer primary key autoincrement, b text collate nocase unique not null default 'x' references o(i) on delete cascade deferrable initially deferred, unique(b desc), check(a > 0)) without rowid",
+			"create unique index i on t(a desc, b collate rtrim asc) where a is not null or b like 'x'", "select a, * from t", "create table t(a, constraint c foreign key(a) references o(i) on update set null match simple)"}
+		novel := make([]string, 6000)
+		for i := range novel {
+			novel[i] = recase(base[i%len(base)], rng)
+		}
+		results := make([]parseOut, len(novel))
+		var wg sync.WaitGroup
+		for g := 0; g < 16; g++ {
+			wg.Add(1)
+			go func(g int) {
+				defer wg.Done()
+				for i := g; i < len(novel); i += 16 {
+					results[i] = parseOnce(novel[i])
+				}
+			}(g)
+		}
+		wg.Wait()
+		for i, s := range novel {
+			run.Eval(1)
+			seq := parseOnce(s)
+			if results[i].pm != "" {
+				run.Violation("C16/panic/"+panicSite(results[i].pm), fmt.Sprintf("Parse panicked under concurrency on %q: %s", clip(s, 160), firstLines(results[i].pm, 2)), hx.M{"sql": s})
+			} else if !sameParse(seq, results[i]) {
+				run.Violation("C16/nondeterministic-concurrent", fmt.Sprintf("Parse(%q) from 16 goroutines (first use of this spelling) differs from parsing it alone afterwards", clip(s, 160)), hx.M{"sql": s})
+			}
+		}
+		run.Count("novel_spellings_parsed_concurrently_first", len(novel))
+	}
 	run.Count("strings_parsed", len(inputs))
 	if run.Thorough() {
 		c16Fuzz(run, allStatements)
